@@ -69,6 +69,16 @@ func derefType(rtype reflect.Type) reflect.Type {
 	return rtype
 }
 
+// Get rid of 0 to many levels of pointers to get at the real value. The
+// returned boolean is false when there is no value to get at: a nil
+// interface or a nil pointer at any level.
+func derefValue(value reflect.Value) (reflect.Value, bool) {
+	for value.IsValid() && value.Kind() == reflect.Ptr {
+		value = value.Elem()
+	}
+	return value, value.IsValid()
+}
+
 func doMatchMatches(expression *grammar.MatchExpression, value reflect.Value) (bool, error) {
 	if !value.IsValid() {
 		return false, fmt.Errorf("Cannot perform matches operations on a nil value for selector: %q", expression.Selector)
@@ -127,9 +137,12 @@ func doMatchIn(expression *grammar.MatchExpression, value reflect.Value) (bool, 
 			// have to treat each element individually, checking each element's
 			// type/kind and rederiving the match value.
 			for i := 0; i < value.Len(); i++ {
-				item := value.Index(i).Elem()
-				itemType := derefType(item.Type())
-				kind := itemType.Kind()
+				// a nil element is not equal to anything
+				item, ok := derefValue(value.Index(i).Elem())
+				if !ok {
+					continue
+				}
+				kind := item.Kind()
 				// We need to special case errors here. The reason is that in an
 				// interface slice there can be a mix/match of types, but the
 				// coerce functions expect a certain type. So the expression
@@ -152,7 +165,7 @@ func doMatchIn(expression *grammar.MatchExpression, value reflect.Value) (bool, 
 					return false, fmt.Errorf(`unable to find suitable primitive comparison function for "in" comparison in interface slice: %s`, kind)
 				}
 				// the value will be the correct type as we verified the itemType
-				if eqFn(matchValue, reflect.Indirect(item)) {
+				if eqFn(matchValue, item) {
 					return true, nil
 				}
 			}
@@ -171,9 +184,13 @@ func doMatchIn(expression *grammar.MatchExpression, value reflect.Value) (bool, 
 				return false, errors.New(`unable to find suitable primitive comparison function for "in" comparison`)
 			}
 			for i := 0; i < value.Len(); i++ {
-				item := value.Index(i)
+				// a nil pointer element is not equal to anything
+				item, ok := derefValue(value.Index(i))
+				if !ok {
+					continue
+				}
 				// the value will be the correct type as we verified the itemType
-				if eqFn(matchValue, reflect.Indirect(item)) {
+				if eqFn(matchValue, item) {
 					return true, nil
 				}
 			}
